@@ -202,7 +202,7 @@ func runProxy(rec *Rec, w *histWorld, sc *ProxyScenario, rnd *rand.Rand) {
 	}
 	pad := map[string]string{"none": "RM0", "one": "RM1", "two": "RM2"}[sc.ReplyMeta] + rs(3)
 	switch sc.Body {
-	case "empty":
+	case "empty", "nil":
 		if sc.ReplyMeta == "none" {
 			pad = ""
 		}
@@ -238,6 +238,9 @@ func runProxy(rec *Rec, w *histWorld, sc *ProxyScenario, rnd *rand.Rand) {
 		} else {
 			r := new(Res)
 			arg, res, read = &Arg{Tag: tag, Pad: pad}, r, func() string { return r.Tag + "|" + r.Pad }
+		}
+		if sc.Body == "nil" && !strings.HasSuffix(tag, ".w") {
+			arg = nil // no argument: a zero-length body
 		}
 		px.mu.Lock()
 		before := px.enters
@@ -279,6 +282,11 @@ func runProxy(rec *Rec, w *histWorld, sc *ProxyScenario, rnd *rand.Rand) {
 		if sc.Failure == "downbefore" {
 			fc.Close()
 			WaitUntil(500*time.Millisecond, func() bool { return !fsess.Health() })
+		} else if sc.Failure == "writefail" {
+			w.mu.Lock()
+			pc := w.fwdConnP
+			w.mu.Unlock()
+			pc.FailWrites()
 		} else {
 			px.mu.Lock()
 			px.cut, px.cutTag = func() { fc.Cut() }, tagP
@@ -289,6 +297,10 @@ func runProxy(rec *Rec, w *histWorld, sc *ProxyScenario, rnd *rand.Rand) {
 		px.cut, px.cutTag = nil, ""
 		px.mu.Unlock()
 		// "on that call only": the next proxied call (new backend connection) and a direct call work again
+		if sc.Failure == "writefail" {
+			fc.Close() // the half-broken connection is given up; a new one is made
+			WaitUntil(500*time.Millisecond, func() bool { return !fsess.Health() })
+		}
 		w.ensureFwd()
 		sc2 := *sc
 		_ = sc2
@@ -310,6 +322,15 @@ func runProxy(rec *Rec, w *histWorld, sc *ProxyScenario, rnd *rand.Rand) {
 		rec.Emit("ProxyOutcome", "pcode", code, "pmsg", msg, "pstat", p.stat, "nextok", nextok,
 			"samestatus", false, "samebody", false, "samemeta", false, "backendenters", 0, "expectedenters", 0, "realipok", true, "reqmetaok", true)
 		return
+	}
+	if sc.Body == "nil" {
+		// pooled contexts of the proxy have served non-empty bodies before the empty one arrives
+		for i := 0; i < 4; i++ {
+			do(w.viaProxy, fmt.Sprintf("%s.%d.w", sc.ID, i))
+		}
+		px.mu.Lock()
+		px.metas, px.realip = nil, nil
+		px.mu.Unlock()
 	}
 	d := do(w.direct, tagD)
 	px.mu.Lock()
